@@ -259,7 +259,6 @@ def execute(plan):
     the decision logs of the seam executions."""
     from . import simset
     core.assert_repo_import()
-    sys.setrecursionlimit(20000)
     case = plan['case']
     want_fair = case.get('F') is not None
     outs = []
